@@ -229,6 +229,17 @@ func ruleC09(c *Ctx) []*report.Result {
 						}
 					}
 					r.Check(w.payload != nil && fl.deep(w.payload) == param, construct+" / payload is the parameter", pos, "the value written is not the method's parameter")
+					rawPrimitive := false
+					for _, suf := range []string{".WriteByte", ".writeByte", ".WriteRune", ".writeRune", ".WriteString", ".writeString", ".Write", ".write"} {
+						if strings.HasSuffix(w.callee, suf) {
+							rawPrimitive = true
+						}
+					}
+					if w.payload != nil && rawPrimitive {
+						if cv := lossyConvOnPath(fl.res(w.payload)); cv != nil {
+							r.Fail(construct+" / payload written in its own representation", c.P.Pos(cv.Pos()), "the payload is converted from "+cv.X.Type().String()+" to "+cv.Type().String()+" before the write: a byte written as a rune is re-encoded (two bytes for values >= 0x80), a string sent through runes loses invalid bytes", nil, "")
+						}
+					}
 					if impl.pkg == "builder" {
 						// the mode in force at the write, for every entry mode of the
 						// builder (A-fmt write events), must be the mode of the side
